@@ -7,11 +7,13 @@ package feat
 
 //@ func OneToZero
 //@   property C02 C03 C20
+//@   pure
 //@   requires pos != 0
 //@   ensures  pos > 0 ==> result == pos - 1
 //@   ensures  pos < 0 ==> result == pos
 //@ func ZeroToOne
 //@   property C02 C20
+//@   pure
 //@   ensures  pos >= 0 ==> result == pos + 1
 //@   ensures  pos <  0 ==> result == pos
 
